@@ -160,6 +160,28 @@ func build(race bool) string {
 	return bin
 }
 
+// buildReal builds pike itself (package main of the tree under test, unmodified: no overlay, no tag) next to the
+// worker. It is rebuilt on every call — the overlay hash does not cover main.go — and go's build cache keeps that cheap.
+func buildReal(workerBin string) string {
+	bin := filepath.Join(filepath.Dir(workerBin), "pike-real")
+	tmp := fmt.Sprintf("%s.tmp%d", bin, os.Getpid())
+	cmd := exec.Command("go", "build", "-o", tmp, ".")
+	cmd.Dir = srcDir
+	cmd.Env = goEnv()
+	var buf bytes.Buffer
+	cmd.Stdout = &buf
+	cmd.Stderr = &buf
+	if err := cmd.Run(); err != nil {
+		s := buf.String()
+		if len(s) > 4000 {
+			s = s[:4000]
+		}
+		fatal(2, "HARNESS ERROR: pike's main package does not build from %s:\n%s", srcDir, s)
+	}
+	os.Rename(tmp, bin)
+	return bin
+}
+
 // gcWork keeps the work directory small: only the 3 most recently used overlay
 // directories (each holds two ~40 MB worker binaries) survive.
 func gcWork(work, keep string) {
@@ -354,6 +376,9 @@ func check(id, tier string) int {
 	seed, _ := strconv.ParseInt(os.Getenv("VERIF_SEED"), 10, 64)
 	pl := planOf(id)
 	bin := build(pl.race)
+	if id == "C19" {
+		os.Setenv("PIKEMC_REALBIN", buildReal(bin)) // C19's real-process tier runs pike's own main()
+	}
 	n := pl.shardsQuick
 	dl := pl.deadlineQuick
 	if tier == "thorough" {
@@ -638,7 +663,7 @@ func main() {
 	}
 	switch os.Args[1] {
 	case "build":
-		build(false)
+		buildReal(build(false))
 		build(true)
 	case "check":
 		id := os.Args[2]
@@ -657,6 +682,9 @@ func main() {
 		var r replay
 		json.Unmarshal(b, &r)
 		bin := build(planOf(r.Property).race)
+		if r.Property == "C19" {
+			os.Setenv("PIKEMC_REALBIN", buildReal(bin))
+		}
 		cmd := exec.Command(bin, "-replay", os.Args[2])
 		cmd.Env = append(os.Environ(), "GOMAXPROCS=2")
 		var so bytes.Buffer
